@@ -124,6 +124,7 @@ func vpRefTable(a, b []byte, m SubstitutionMatrix, local bool) []float64 {
 // also asserted directly.
 func VP_C09_GlobalOptimal() {
 	a, b, m := vpInputs(false)
+	vpWarm(m, false)
 	V := vpAltTable(a, b, m, "alt", false)
 	if vpCase("lemmas") == 1 {
 		R := vpRefTable(a, b, m, false)
@@ -152,6 +153,7 @@ func VP_C09_GlobalOptimal() {
 // than Local's result (same structure as the global case).
 func VP_C09_LocalOptimal() {
 	a, b, m := vpInputs(true)
+	vpWarm(m, true)
 	V := vpAltTable(a, b, m, "alt", true)
 	if vpCase("lemmas") == 1 {
 		R := vpRefTable(a, b, m, true)
